@@ -1,5 +1,135 @@
-(** C01 -- placeholder while the models are validated; theorems follow. *)
+(** C01 -- GDSII write-then-read returns the library that was written.
+    Property theorems only; the proof is the composition of C02 (the writer model produces the
+    reference encoding; Gds/GdsWrite_proofs.v) and C03 (the reader model reads it back;
+    Gds/GdsRtRead_proofs.v, Gds/GdsRoundtrip_proofs.v).
+
+    Models: Gds/GdsWrite.v [write_lib] (gds21 `GdsLibrary::write` into a Vec<u8>), Gds/GdsRead.v
+    [read_lib] (`GdsLibrary::from_bytes`, after the repair of read_str) and [read_lib_orig] (as
+    found). Vocabulary ([lib_ok], [KnownClass_C01], [some_payload_too_long], [lib_canon]): see
+    Properties/C02.v. Equality: [lib_rust_eqb] is Rust's derived `PartialEq` on GdsLibrary; the
+    real-valued fields (units, magnification, angle) are IEEE bit patterns compared as Rust compares
+    f64 values ([f64_rust_eq]: equal bits and not NaN, or both zeros), every other field by identity.
+    In fact the library read back is [lib_canon l]: identical bits except that -0.0 becomes +0.0. *)
 From Coq Require Import ZArith Bool List.
-From L21 Require Import Base.Outcome Base.Hex Gds.GdsData Gds.GdsRecord Gds.GdsWrite Gds.GdsRead Gds.GdsSpec.
+From L21 Require Import Base.Outcome Base.Hex Base.F64 Gds.GdsData Gds.GdsRecord Gds.GdsWrite Gds.GdsRead
+  Gds.GdsSpec Gds.GdsRtDefs Gds.GdsRtStrip Gds.GdsRtExamples Gds.GdsWTables_proofs Gds.GdsWrite_proofs Gds.GdsWFits_proofs
+  Gds.GdsRoundtrip_proofs Gds.GdsRtStrip_proofs.
 Import ListNotations.
 Local Open Scope Z_scope.
+
+(** (1) Bytes produced for a library read back to a library equal to it, field for field. *)
+Theorem C01_roundtrip :
+  forall l bs, lib_ok l -> ~ KnownClass_C01 l -> write_lib l = Ok bs ->
+    exists l', read_lib bs = Ok l' /\ lib_rust_eqb l l' = true.
+Proof.
+  intros l bs Hok Hk Hw. exists (lib_readback l). split.
+  - apply GdsRt_roundtrip_core; [apply GdsRt_lib_ok_shape, Hok | exact Hk | exact Hw].
+  - apply GdsRt_lib_ok_rust_eq, Hok.
+Qed.
+(** ... precisely: *)
+Theorem C01_roundtrip_exact :
+  forall l bs, lib_ok l -> ~ KnownClass_C01 l -> write_lib l = Ok bs -> read_lib bs = Ok (lib_canon l).
+Proof.
+  intros l bs Hok Hk Hw. rewrite <- (GdsRt_readback_canon l Hok).
+  apply GdsRt_roundtrip_core; [apply GdsRt_lib_ok_shape, Hok | exact Hk | exact Hw].
+Qed.
+Corollary C01_roundtrip_identity :
+  forall l bs, lib_ok l -> ~ KnownClass_C01 l -> (forall x, In x (lib_reals l) -> x <> two63) ->
+    write_lib l = Ok bs -> read_lib bs = Ok l.
+Proof.
+  intros l bs Hok Hk Hz Hw. rewrite (C01_roundtrip_exact l bs Hok Hk Hw), (GdsRt_canon_no_negzero l Hz). reflexivity.
+Qed.
+
+(** (2) "Either fails with an error or ...": writing never panics; it fails only with the
+    record-length error, exactly when a payload exceeds the 16-bit length field; otherwise the
+    bytes read back. *)
+Theorem C01_write_then_read :
+  forall l, lib_ok l -> ~ KnownClass_C01 l ->
+    (some_payload_too_long l = true /\ write_lib l = Err ERecordLen) \/
+    (some_payload_too_long l = false /\
+     exists bs l', write_lib l = Ok bs /\ read_lib bs = Ok l' /\ lib_rust_eqb l l' = true).
+Proof.
+  intros l Hok Hk. pose proof (GdsW_write_lib_eq l) as E. rewrite GdsW_fits_iff_payloads in E.
+  destruct (some_payload_too_long l); cbn [negb] in E; [left; auto | right].
+  split; [reflexivity|]. destruct (C01_roundtrip l _ Hok Hk E) as (l' & H1 & H2). eauto.
+Qed.
+
+(** (3) The excluded class fails, on the model as on the implementation: library name "a\0". *)
+Theorem C01_known_class_refuted :
+  exists l bs, lib_ok l /\ KnownClass_C01 l /\ write_lib l = Ok bs /\
+    exists l', read_lib bs = Ok l' /\ lib_rust_eqb l l' = false.
+Proof.
+  exists GdsRt_known_lib. eexists. split; [vm_compute; reflexivity|]. split; [vm_compute; reflexivity|].
+  split; [vm_compute; reflexivity|]. exists GdsRt_known_lib_read. split; vm_compute; reflexivity.
+Qed.
+
+(** (3') What the class does, exactly, for EVERY library (no exclusion): the library read back is
+    [lib_canon (lib_strip l)], where [lib_strip] (Gds/GdsRtStrip.v) removes the last byte of every
+    string of even length that ends in NUL and changes nothing else; outside the class
+    [lib_strip l = l]. So the property fails on exactly that byte of exactly those strings. *)
+Theorem C01_roundtrip_total :
+  forall l bs, lib_ok l -> write_lib l = Ok bs -> read_lib bs = Ok (lib_canon (lib_strip l)).
+Proof.
+  intros l bs Hok Hw. rewrite <- (GdsRtP_readback_strip_canon l Hok).
+  apply GdsRtP_roundtrip_total; [apply GdsRt_lib_ok_shape, Hok | exact Hw].
+Qed.
+Theorem C01_strip_outside_class : forall l, ~ KnownClass_C01 l -> lib_strip l = l.
+Proof. exact GdsRtP_strip_id. Qed.
+
+(** (4) The reader as found (before the repair `len > 0 &&` in read_str) violated the property:
+    a library with an empty name is written and then panics the reader (`data[len - 1]`). *)
+Theorem C01_orig_refuted :
+  exists l bs, lib_ok l /\ ~ KnownClass_C01 l /\ write_lib l = Ok bs /\ read_lib_orig bs = Panic.
+Proof.
+  exists GdsRt_empty_name_lib. eexists. split; [vm_compute; reflexivity|]. split; [vm_compute; discriminate|].
+  split; [vm_compute; reflexivity|]. vm_compute. reflexivity.
+Qed.
+
+(** Non-vacuity: see C02_nonvacuous / C03_nonvacuous for the hypotheses on the example library with
+    every element kind and every optional field; here the round trip itself, by computation. *)
+Example C01_nonvacuous :
+  lib_okb GdsRt_full_lib = true /\ known_class_c01b GdsRt_full_lib = false /\
+  (match write_lib GdsRt_full_lib with
+   | Ok bs => match read_lib bs with Ok l' => lib_eqb l' GdsRt_full_lib | _ => false end
+   | _ => false end) = true /\
+  (match write_lib GdsRt_negzero_lib with
+   | Ok bs => match read_lib bs with
+              | Ok l' => lib_rust_eqb GdsRt_negzero_lib l' && negb (lib_eqb GdsRt_negzero_lib l')
+              | _ => false end
+   | _ => false end) = true /\
+  (match write_lib GdsRt_max_xy_lib with
+   | Ok bs => match read_lib bs with Ok l' => lib_eqb l' GdsRt_max_xy_lib | _ => false end
+   | _ => false end) = true /\
+  lib_okb GdsRt_long_lib = true /\ is_err (write_lib GdsRt_long_lib) = true.
+Proof. vm_compute. repeat split; reflexivity. Qed.
+
+(** statements pinned *)
+Check C01_roundtrip :
+  forall l bs, lib_ok l -> ~ KnownClass_C01 l -> write_lib l = Ok bs ->
+    exists l', read_lib bs = Ok l' /\ lib_rust_eqb l l' = true.
+Check C01_roundtrip_exact :
+  forall l bs, lib_ok l -> ~ KnownClass_C01 l -> write_lib l = Ok bs -> read_lib bs = Ok (lib_canon l).
+Check C01_roundtrip_identity :
+  forall l bs, lib_ok l -> ~ KnownClass_C01 l -> (forall x, In x (lib_reals l) -> x <> two63) ->
+    write_lib l = Ok bs -> read_lib bs = Ok l.
+Check C01_write_then_read :
+  forall l, lib_ok l -> ~ KnownClass_C01 l ->
+    (some_payload_too_long l = true /\ write_lib l = Err ERecordLen) \/
+    (some_payload_too_long l = false /\
+     exists bs l', write_lib l = Ok bs /\ read_lib bs = Ok l' /\ lib_rust_eqb l l' = true).
+Check C01_known_class_refuted :
+  exists l bs, lib_ok l /\ KnownClass_C01 l /\ write_lib l = Ok bs /\
+    exists l', read_lib bs = Ok l' /\ lib_rust_eqb l l' = false.
+Check C01_roundtrip_total :
+  forall l bs, lib_ok l -> write_lib l = Ok bs -> read_lib bs = Ok (lib_canon (lib_strip l)).
+Check C01_orig_refuted :
+  exists l bs, lib_ok l /\ ~ KnownClass_C01 l /\ write_lib l = Ok bs /\ read_lib_orig bs = Panic.
+
+Print Assumptions C01_roundtrip.
+Print Assumptions C01_roundtrip_exact.
+Print Assumptions C01_roundtrip_identity.
+Print Assumptions C01_write_then_read.
+Print Assumptions C01_known_class_refuted.
+Print Assumptions C01_roundtrip_total.
+Print Assumptions C01_strip_outside_class.
+Print Assumptions C01_orig_refuted.
